@@ -5,4 +5,4 @@ From Kardia Require Import C12.Model.
 Extraction Language OCaml.
 Set Extraction KeepSingleton.
 From Kardia Require Import Base.Anchor.
-Extraction "../ocaml/C12/model.ml" Anchor.anchor Model.init_slots Model.step.
+Extraction "../ocaml/C12/model.ml" Anchor.anchor Model.init_slots Model.step Model.init_chain Model.chain_step.
